@@ -46,6 +46,12 @@ func c01Skeletons() []Skeleton {
 			"Tip(cyc,1000)", "Submit(R1,cyc,std)", "Submit(R2,cyc,std200)", "Submit(RV1,cyc,7)", "Tip(modeq,50)", "Submit(R1,modeq,std)", "Submit(R2,modeq,std200)", b1, b1, b1, b1,
 		}},
 	}
+	// two reporters tie for the highest power and a third makes the pro-rata split inexact: any ordering keyed on power
+	// (or on anything else that ties) then falls back on the order the map delivered
+	sk = append(sk, Skeleton{Name: "equal-power-reward", MintOn: true, Cfg: Config{ValStakes: []int64{3000, 3000, 2000}}, Labels: []string{
+		"Tip(cyc,1000)", "Submit(R1,cyc,std)", "Submit(RV1,cyc,7)", "Submit(RV2,cyc,7)", b1, b1, b1, b1,
+		"Tip(modeq,50)", "Submit(RV1,modeq,7)", "Submit(RV2,modeq,7)", "Submit(R2,modeq,std200)", b1, b1, b1,
+	}})
 	for _, s := range Skeletons() {
 		if s.Name == "bridge" {
 			continue // 2 000-block set-up per re-execution; the bridge paths are covered by "round-maxval2" valset changes
@@ -242,7 +248,7 @@ func checkC01(rc *RunCtx) {
 			rc.Sample(map[string]interface{}{"skeleton": s.Name, "events": s.Labels})
 		}
 		// k=1: every single inserted/substituted event
-		if rc.Quick() && s.Name != "mode-tie" && s.Name != "multi-reward" {
+		if rc.Quick() && s.Name != "mode-tie" && s.Name != "multi-reward" && s.Name != "equal-power-reward" {
 			continue // quick tier: single deviations only around the two order-sensitive skeletons
 		}
 		w := NewWorld(s.Cfg)
